@@ -1346,7 +1346,8 @@ struct array : static_array<T, D, Alloc> {
 	}
 
 	auto operator=(array const& other) -> array& {
-		if(array::extensions() == other.extensions()) {
+		// storage can be kept only if it still belongs to the allocator this array will have after the assignment
+		if(array::extensions() == other.extensions() && (!multi::allocator_traits<typename array::allocator_type>::propagate_on_container_copy_assignment::value || this->alloc() == other.alloc())) {
 			if(this == &other) {
 				return *this;
 			}  // required by cert-oop54-cpp
